@@ -669,6 +669,8 @@ class Inliner:
         self.is_glue = is_glue or (lambda st: False)
         self.fresh = fresh or _Fresh()
         self.inlined = []
+        self.failed = {}                # helper -> why it could not be expanded (the call is then left in place:
+        #                                 the translator refuses it if, and only if, the call is actually reached)
 
     # -- which calls
     def _target(self, call, local_names):
@@ -712,7 +714,13 @@ class Inliner:
                 st.body = self.stmts(st.body, loc, stack)
                 out.append(st)
             elif isinstance(st, ast.Expr) and isinstance(st.value, ast.Call) and self._target(st.value, loc):
-                pre, val = self.expand(st.value, loc, stack, hoist=True, want_value=False)
+                st.value.args = [self._sub(x, loc, stack, out) for x in st.value.args]
+                try:
+                    pre, val = self.expand(st.value, loc, stack, hoist=True, want_value=False)
+                except Refusal as e:
+                    self.failed[self._target(st.value, loc)] = str(e)
+                    out.append(st)
+                    continue
                 out += pre
                 if val is not None:
                     out.append(ast.copy_location(ast.Expr(value=val), st))
@@ -725,6 +733,11 @@ class Inliner:
             else:
                 out.append(st)          # the translator refuses the statement (and the call inside) itself
         return out
+
+    def _sub(self, e, loc, stack, out):
+        pre, e = self.expr(e, loc, stack, hoist=True)
+        out += pre
+        return e
 
     # -- expressions: expand innermost calls first; `hoist`: may statements be placed before the statement?
     def expr(self, e, loc, stack, hoist):
@@ -759,7 +772,11 @@ class Inliner:
             def visit_Call(self, node):
                 self.generic_visit(node)
                 if inl._target(node, loc):
-                    p, val = inl.expand(node, loc, stack, hoist=hoist and not self.cond, want_value=True)
+                    try:
+                        p, val = inl.expand(node, loc, stack, hoist=hoist and not self.cond, want_value=True)
+                    except Refusal as e:
+                        inl.failed[inl._target(node, loc)] = str(e)
+                        return node
                     pre.extend(p)
                     return val
                 return node
@@ -909,4 +926,5 @@ def prepare_function(fn, module_tree, module_name, keep=(), is_glue=None, matrix
     doc, body = _strip_doc(fn.body)
     fn.body = doc + collapse_ret(fold_constants(body))
     ast.fix_missing_locations(fn)
+    fn._inline_failed = dict(inl.failed)
     return fn, sorted(set(inl.inlined))
